@@ -135,7 +135,7 @@ def base_cases(ctx, seed, tier):
             elif live:
                 b = r.choice(live); live.remove(b); reqs.append(("f%d" if b[1] == "p" else "F%d") % b[0])
         out.append(("default", " ".join(reqs)))
-    for op in ("mkdirs", "canon", "cwd", "tmpdir", "mktmp", "copy 5000", "copyx 0", "copyx 511", "copyx 513", "copyx 70000",
+    for op in ("mkdirs", "canon", "cwd", "tmpdir", "mktmp", "mktmpbad 0", "mktmpbad 1", "mktmpbad 2", "copy 5000", "copyx 0", "copyx 511", "copyx 513", "copyx 70000",
                "equals 0", "equals 4095", "equals 4096", "equals 9000", "equals 9000 8999", "equals 9000 0",
                "equals 600 512"):
         out.append(("fs", op))
@@ -267,6 +267,10 @@ def judge(comp, fault, args, line, nofault_line, oracle):
                 probs.append("wrong path returned")
             elif op == "mktmp" and "res=str" in body and "isdir=1" not in body:
                 probs.append("temporary directory not created")
+            elif op in ("mktmp", "mktmpbad") and "left=0" not in body:
+                probs.append("a directory was left behind by a call that did not return it")
+            elif op == "mktmpbad" and "res=NULL" not in body:
+                probs.append("a refused pattern did not yield NULL")
             elif op in ("copy", "copyx") and body != "st=SUCCESS equal=1":
                 probs.append("copy did not complete through the documented fall-back: " + body)
             elif op == "equals":
@@ -302,7 +306,7 @@ def model_trace_cmd(comp, fault, args, line, nofault_line):
         op = args.split()[0]
         if op == "mkdirs":
             return "G mkdirs " + bits
-        if op in ("canon", "cwd", "tmpdir", "mktmp"):
+        if op in ("canon", "cwd", "tmpdir", "mktmp", "mktmpbad"):
             return "G one " + bits
         if op == "cwdlong":
             return None
